@@ -4,7 +4,7 @@
 PROPS = {
     "C11": {
         "level": "proof",
-        "verus": ["c11_json_writer"],
+        "verus": ["c11_json_writer", "c11_string_indexer"],
         "kani": [],
         "assumptions": [],
         "trusted_base": [],
